@@ -2,6 +2,7 @@
 //! vrlmc — bounded exhaustive exploration of vectordotdev/vrl (see /verif/DESIGN.md).
 
 mod explore;
+mod law;
 mod model;
 mod props;
 mod report;
